@@ -12,7 +12,9 @@ RULE = ("one file receives generated scientific datasets (written by DFSDadddata
         "calls; 7 number types, rank 1..3, optional label/unit/format strings, fill value, range, dimension scale), "
         "8-bit rasters (DFR8 with/without palette and RLE, or GR 1-component with/without LUT and RLE/deflate), "
         "24-bit rasters (DF24 in pixel/line/plane interlace, or GR 3-component in the three interlaces) and file "
-        "annotations (DFAN or AN), appended in generated order by different interfaces. Every object is then read "
+        "annotations (DFAN or AN), appended in generated order by different interfaces; optionally a 16-bit GR image "
+        "(which GR alone presents and which must stay intact) and later sessions in which GR gives one of its 8-bit "
+        "images a first palette or an attribute. Every object is then read "
         "in fresh processes through every interface able to address it (SD, DFSD, nc*, V-level view of SD and GR "
         "objects; GR, DFR8, DF24 with every requested interlace, DFP palettes; AN, DFAN) and dimensions, number "
         "type, values, palettes, strings must equal the model. The `extra` sweep reads every checked-in HDF file of "
@@ -21,7 +23,8 @@ RULE = ("one file receives generated scientific datasets (written by DFSDadddata
 BUDGET = {"quick": {"shards": 8, "cases": 150}, "thorough": {"shards": 16, "cases": 2500}}
 MIN_NT = {"quick": 600, "thorough": 12000}
 ASSUMPTIONS = ["lossless storage only (JPEG/IMCOMP excluded)",
-               "raster images written through GR are of type DFNT_UINT8, the type GR writes compatibility raster groups for",
+               "raster images written through GR for the old interfaces are of type DFNT_UINT8, the type GR writes compatibility "
+               "raster groups for; the one 16-bit image is only required to stay readable through GR",
                "objects are matched between interfaces by content and order of creation; the single-file interfaces "
                "have no names",
                "the netCDF-style writer only creates the file (nccreate clobbers); DFSD/SD/GR/DFR8/DF24 append"]
@@ -80,6 +83,9 @@ def strategy_(draw, tier):
     for i in range(draw(st.integers(0, 2))):
         items.append(dict(kind="ann", w=draw(st.sampled_from(["dfan", "an"])), what=draw(st.sampled_from(["label", "desc"])),
                           text="text %d %s" % (i, "x" * draw(st.integers(0, 60)))))
+    if draw(st.integers(0, 3)) == 0:
+        # a GR image that is not 8-bit: only GR presents it, but it shifts the refs of everything GR creates later
+        items.append(dict(kind="x16", w="gr", x=draw(st.integers(1, 5)), y=draw(st.integers(1, 5)), name="x16"))
     if not items:
         items.append(dict(kind="ri8", w="dfr8", x=3, y=2, pal=True, comp="none", name="i8_0"))
     # order of creation: datasets keep their relative order (nc first), everything else is shuffled in
@@ -88,6 +94,12 @@ def strategy_(draw, tier):
     if first_nc and nsds:
         seq.remove(items[0])
         seq.insert(0, items[0])
+    # later sessions that change the description of an image GR wrote: a first palette, or an attribute
+    for it in [it for it in seq if it["kind"] == "ri8" and it["w"] == "gr"]:
+        how = draw(st.sampled_from(["", "", "lut", "attr"]))
+        if how == "attr" or (how == "lut" and not it["pal"]):
+            at = draw(st.integers(seq.index(it) + 1, len(seq)))
+            seq.insert(at, dict(kind="edit", w="gr", target=it["name"], how=how))
     return {"items": seq, "reqil": draw(st.integers(0, 2))}
 
 
@@ -232,6 +244,32 @@ def write_item(it, k, d, model):
             p.call("i", "GRendaccess", V("ri"))
             p.call("i", "GRend", V("gr"))
             p.call("i", "Hclose", V("f"))
+    elif it["kind"] == "x16":
+        x, y = it["x"], it["y"]
+        img = vals("int16", x * y, k + 23)
+        it["img"] = img
+        p.call("i", "Hopen", F, 3 if model["created"] else 4, 0, bind="f")
+        p.call("i", "GRstart", V("f"), bind="gr")
+        p.call("i", "GRcreate", V("gr"), it["name"], 1, 22, 0, i32s(x, y), bind="ri")
+        p.call("i", "GRwriteimage", V("ri"), i32s(0, 0), None, i32s(x, y), img.tobytes())
+        p.call("i", "GRendaccess", V("ri"))
+        p.call("i", "GRend", V("gr"))
+        p.call("i", "Hclose", V("f"))
+    elif it["kind"] == "edit":
+        tgt = [t for t in model["items"] if t["kind"] == "ri8" and t["name"] == it["target"]][0]
+        p.call("i", "Hopen", F, 3, 0, bind="f")
+        p.call("i", "GRstart", V("f"), bind="gr")
+        p.call("i", "GRnametoindex", V("gr"), it["target"], bind="ix")
+        p.call("i", "GRselect", V("gr"), V("ix"), bind="ri")
+        if it["how"] == "lut":
+            p.call("i", "GRgetlutid", V("ri"), 0, bind="lut")
+            p.call("i", "GRwritelut", V("lut"), 3, 21, 0, 256, tgt["palv"])
+            tgt["pal"] = True
+        else:
+            p.call("i", "GRsetattr", V("ri"), "note", 4, 5, b"later")
+        p.call("i", "GRendaccess", V("ri"))
+        p.call("i", "GRend", V("gr"))
+        p.call("i", "Hclose", V("f"))
     else:
         txt = it["text"].encode()
         p.call("i", "Hopen", F, 3 if model["created"] else 4, 0, bind="f")
@@ -506,6 +544,7 @@ def check(case, d, labels, excluded, known_keys):
     if not items:
         return
     text = ""
+    model["items"] = items
     for k, it in enumerate(items):
         p = write_item(it, k, d, model)
         rr = run(p, cwd=d, timeout=60)
@@ -521,6 +560,7 @@ def check(case, d, labels, excluded, known_keys):
     sds = [it for it in items if it["kind"] == "sds"]
     ri8 = [it for it in items if it["kind"] == "ri8"]
     ri24 = [it for it in items if it["kind"] == "ri24"]
+    x16 = [it for it in items if it["kind"] == "x16"]
     anns = [it for it in items if it["kind"] == "ann"]
     F = "x.hdf"
 
@@ -836,9 +876,9 @@ def check(case, d, labels, excluded, known_keys):
                 raise Fail("the data element listed in the Vgroup view of %s does not hold its values" % it["name"],
                            ret=qq2.res[l].ret, want=n, program=prog)
     # ------------------------------------------------------------ rasters
-    if ri8 or ri24:
+    if ri8 or ri24 or x16:
         # GR view: inventory first (dimensions), then the reads
-        nimg = len(ri8) + len(ri24)
+        nimg = len(ri8) + len(ri24) + len(x16)
         q = Prog()
         q.call("i", "Hopen", F, 1, 0, bind="f")
         q.call("i", "GRstart", V("f"), bind="gr")
@@ -863,7 +903,10 @@ def check(case, d, labels, excluded, known_keys):
                              il=un_i32s(x.bufs[3])[0], dims=un_i32s(x.bufs[4])))
         # the single-file writers give no names and GR lists new-style images before old raster groups: images
         # are matched by content
-        p8 = [p_ for p_ in pres if p_["ncomp"] == 1]
+        p16 = [p_ for p_ in pres if p_["ncomp"] == 1 and (p_["nt"] & 0xfff) == 22]
+        p8 = [p_ for p_ in pres if p_["ncomp"] == 1 and (p_["nt"] & 0xfff) != 22]
+        if len(p16) != len(x16) or any([p_["dims"], p_["name"]] != [[it["x"], it["y"]], it["name"]] for p_, it in zip(p16, x16)):
+            raise Fail("GR does not present the 16-bit image it wrote", presented=pres, program=prog)
         p24 = [p_ for p_ in pres if p_["ncomp"] == 3]
         if len(p8) != len(ri8) or len(p24) != len(ri24):
             raise Fail("GR presents other component counts than were written", presented=pres, program=prog)
@@ -877,7 +920,8 @@ def check(case, d, labels, excluded, known_keys):
             for il in ([0] if nc == 1 else [0, 1, 2]):
                 q.call("i", "GRselect", V("gr"), pr["index"], bind="ri")
                 q.call("i", "GRreqimageil", V("ri"), il)
-                pr["reads"][il] = q.call("i", "GRreadimage", V("ri"), i32s(0, 0), None, i32s(x_, y_), Out(max(x_ * y_ * nc, 1)))
+                pr["reads"][il] = q.call("i", "GRreadimage", V("ri"), i32s(0, 0), None, i32s(x_, y_),
+                                         Out(max(x_ * y_ * nc, 1) * (2 if (pr["nt"] & 0xfff) == 22 else 1)))
                 if il == 0 and nc == 1:
                     q.call("i", "GRgetlutid", V("ri"), 0, bind="lut")
                     pr["lutinfo"] = q.call("i", "GRgetlutinfo", V("lut"), Out(4), Out(4), Out(4), Out(4))
@@ -887,6 +931,12 @@ def check(case, d, labels, excluded, known_keys):
         q.call("i", "Hclose", V("f"))
         qq = run(q, cwd=d, timeout=60)
         crash(qq, "GR", q)
+        for p_, it in zip(p16, x16):
+            labels.add("non8bit_gr_image")
+            if qq.res[p_["reads"][0]].ret != 0 or qq.res[p_["reads"][0]].bufs[0] != it["img"].tobytes():
+                raise Fail("pixels of the 16-bit image read through GR differ from what GR wrote", program=prog)
+        if any(it["kind"] == "edit" for it in items):
+            labels.add("gr_edit_in_later_session")
         for group, plist in ((ri8, p8), (ri24, p24)):
             free = list(plist)
             for it in sorted(group, key=lambda it: not (it["kind"] == "ri24" and it["w"] == "df24" and it["il"] != 0)):
